@@ -2,7 +2,7 @@
 from ..core import Script, hx
 
 ID = "C18"
-SUITES = ["b62", "config"]
+SUITES = ["b62", "config", "init"]
 LEAN_MODULES = ["VpnCloud.Proofs.C18", "VpnCloud.Proofs.C18More"]
 THEOREMS = ["VpnCloud.Proofs.C18." + n for n in (
     "toBase62_total", "toBase62_value", "fromBase62_value", "fromBase62_error", "from_to",
@@ -59,7 +59,7 @@ def classify(script, result):
     return None
 
 
-PASSWORDS = ["", "test", "test123", "password", "secret7698", "a", "äöüß", "你好世界", "\U0001f511key",
+PASSWORDS = ["password190", "", "test", "test123", "password", "secret7698", "a", "äöüß", "你好世界", "\U0001f511key",
              "x" * 1024, " ", "pw with spaces", "0", "null\u0000byte"]
 
 
@@ -75,6 +75,9 @@ def gen(tier, rng):
         ao = _c20.fix_arg_opts(rng, [o for o in keyopts if rng.chance(1, 2)])
         kops.append("%s %s %s" % (rng.choice(["cfgmerge", "cfgrt"]), _c20.file_assign(rng, fo), _c20.arg_assign(rng, ao)))
     yield Script("key-options", kops, {"suite": "config"})
+    # "accepted when configured as … trusted key": at every position of a list of several trusted keys (parties built through the real configuration path)
+    from .. import initgen
+    yield initgen.cfg_script(rng.fork("cfg"), "trusted-key-lists")
     ops = ["b62enc -"]
     for a in range(256):
         ops.append("b62enc %02x" % a)
